@@ -85,7 +85,7 @@ PROPS = {
                      "until the next refresh; model-vs-code comparison still applies"],
     ),
     "C09": dict(
-        components=[("recovery", 1500, 50000)],
+        components=[("recovery", 1500, 50000), ("receiver", 300, 4000)],
         seed_offset=7919,
         trusted=RECOVERY_TRUST + ["a successor's tracker is rebuilt in the harness by replaying the recorded message log into a fresh instance; "
                                   "the model keeps the tracker across 'crash' (justified by C08.snapshot_replication)"],
@@ -102,7 +102,7 @@ PROPS = {
         assumptions=["rates 50..5000/s, 1..4 partitions recovering at once; events per second are measured, not proved (runtime part of the property)"],
     ),
     "C20": dict(
-        components=[("params", 5000, 200000)],
+        components=[("params", 5000, 200000), ("wiring", 150, 3000)],
         trusted=["confluent ConfigMap.SetKey ({topic}. sub-map rule) modelled in classify/applyParam", "strconv.Atoi/ParseBool re-implemented in the "
                  "model and compared with Go on boundary strings in every run", "strconv.ParseFloat / FormatFloat are parameters of the model "
                  "(round-trip hypothesis); the harness supplies Go's ParseFloat of each configured string"],
@@ -110,7 +110,7 @@ PROPS = {
                      "NaN bounds/defaults are outside the quantifier (compared model-vs-code only)"],
     ),
     "C08": dict(
-        components=[("tracker", 2000, 100000)],
+        components=[("tracker", 2000, 100000), ("receiver", 300, 4000)],
         parallel=8,
         trusted=[JSON_CODEC, "FBContext.SendMessage replaced by a recording context"],
         assumptions=["ranges well-formed (from <= to) and message keys parsable, as every caller in firebolt produces them; "
@@ -186,7 +186,7 @@ PROPS = {
         assumptions=["the seconds are a runtime quantity: the Lean theorems are about the main goroutine's logic (the timer alone decides once it waits); the bound itself is measured"],
     ),
     "C18": dict(
-        components=[("supervise", 0, 12)],
+        components=[("supervise", 0, 12), ("setupparams", 40, 400)],
         parallel=12,
         shrink=False,
         case_timeout=200,
